@@ -238,7 +238,7 @@ var _ interpreter.Debugger = (*recorder)(nil)
 
 func init() {
 	p := register(&Prop{ID: "C19", Level: "model_checking",
-		Rule: "explicit-state exploration of the real interpreter, each program executed five ways (no debugger, recording debugger, debugger that scribbles over every byte of every stack/cond/saved-stack item and every scalar of every *State it is handed, and both again through debug.NewDebugger's fan-out with all 14 attach points): (1) identical verdict and error text in all runs; (2) the callback trace is accepted by the lifecycle automaton Trace := E Step* [Abort] e Stk* (Y|N), Step := S O Stk* [o] Stk* [C c] Stk* s, and success/error callback matches the verdict; (3) the scribbling runs produce the same callback trace and the same AfterStep snapshot sequence as the recording run; (4) consecutive snapshots agree with the reference machine's effect of the instruction between them, and the stack items of every snapshot handed to the first 96 callbacks, kept by the debugger without copying, still read the same when the execution has finished. Spaces: every byte string of length<=2 as locking script x 4 seed unlocking scripts x 2 eras (length 3 over a 48-symbol alphabet when thorough), every opcode x operand tuples of arity<=2 over 10 edge operands x 2 eras, the control-flow program search of C05 (depth 5/6), P2SH (pre-genesis, saved first stack) / limit / OP_RETURN templates, signature spends. states = distinct callback traces, transitions = callbacks checked",
+		Rule: "explicit-state exploration of the real interpreter, each program executed five ways (no debugger, recording debugger, debugger that scribbles over every byte of every stack/cond/saved-stack item and every scalar of every *State it is handed, and both again through debug.NewDebugger's fan-out with all 14 attach points): (1) identical verdict and error text in all runs; (2) the callback trace is accepted by the lifecycle automaton Trace := E Step* [Abort] e Stk* (Y|N), Step := S O Stk* [o] Stk* [C c] Stk* s, and success/error callback matches the verdict; (3) the scribbling runs produce the same callback trace and the same AfterStep snapshot sequence as the recording run; (4) consecutive snapshots agree with the reference machine's effect of the instruction between them, and the stack items of every snapshot handed to the first 96 callbacks, kept by the debugger without copying, still read the same when the execution has finished; the snapshot handed to AfterScriptChange shows an empty alt stack (it does not survive a script boundary). Spaces: every byte string of length<=2 as locking script x 4 seed unlocking scripts x 2 eras (length 3 over a 48-symbol alphabet when thorough), every opcode x operand tuples of arity<=2 over 10 edge operands x 2 eras, the control-flow program search of C05 (depth 5/6), P2SH (pre-genesis, saved first stack) / limit / OP_RETURN templates, signature spends. states = distinct callback traces, transitions = callbacks checked",
 	})
 	NewSpace(p, "exec", c19Check)
 	p.Run = func(r *rep.Run, thorough bool) {
